@@ -12,11 +12,14 @@ META = dict(
         'lengths other than the listed concrete instances; fragment sequences other than the one each harness runs',
         'belt-FMT states for count > 40 in the quick tier (thorough: up to count = 600 for mod = 65536 / 10)',
         'btok, bign, bake, bels, stb99, pfok, dstu, g12s, bpki, ec/ecp/gf2/gfp/qr/zm object layers: not encoded here',
+        'c07_keep_dbg_beltFMT (ASSERT-live belt-FMT): timed out at 240 s in the quick probe, thorough tier only; botpOCRA bundles and c07_blob_aead/brng/botp: thorough tier only, probes ended in timeout / 6 GB memory cap (UNDECIDED)',
+        'family B: see props/C07_deep.py NOT_DECIDED (gcd/div/sqrt/irred families do not finish; defects there were confirmed by native ASan runs, not by a solver query)',
         'W16 profile for the crypto bundles (16-bit words are not a shipped configuration; family B uses it for the zz/pp layer)',
     ],
     assumptions=[
         'family A/C/D: belt block cipher = uninterpreted bijection (stubs/belt_block_uf.c) and bash-f = uninterpreted function (stubs/bashf_uf.c); the stubs read and write exactly block[16] / block[192] through the pointer they are given, so a wrong block pointer is still an out-of-object access; the real kernels are run once with exact-size buffers (c07_kernel_*)',
         'family C: memIsDisjoint/memIsSameOrDisjoint/memIsDisjoint2 replaced by object-aware models (different objects are disjoint, same object: the library\'s offset comparison), utilAssert replaced by a failing property (harness/C07/dbg_stubs.c)',
+        'c07_blob_kwp / c07_blob_fmt: beltKWPWrap and beltFMTEncr/Decr call memIsDisjoint2 on caller buffers in release builds (relational comparison of pointers into different objects, C-level UB that CBMC reports as "same object violation"); these two groups link the object-aware memIsDisjoint* models of harness/C07/dbg_stubs.c',
         'alignment of caller buffers is not modelled (bee2 casts octet buffers to word*; malloc results are aligned)',
     ],
 )
@@ -29,7 +32,7 @@ LCL = B + 'belt_lcl.c'
 PP = ['src/math/pp/pp_mul.c', 'src/math/pp/pp_red.c', 'src/math/ww.c']
 ZZ = ['src/math/zz/zz_add.c', 'src/math/zz/zz_mul.c', 'src/math/zz/zz_gcd.c', 'src/math/zz/zz_etc.c', 'src/math/ww.c']
 HASHS = [B + 'belt_hash.c', B + 'belt_compr.c']
-HMACS = [B + 'belt_hmac.c', B + 'belt_compr.c']
+HMACS = [B + 'belt_hmac.c', B + 'belt_compr.c', B + 'belt_hash.c']
 BASH = ['src/crypto/bash/bash_hash.c', 'src/crypto/bash/bash_prg.c']
 BOTP = ['src/crypto/botp.c', 'src/core/dec.c', 'src/core/str.c', 'src/core/tm.c']
 UF = 'harness/C07/belt_block_havoc.c'
@@ -43,8 +46,8 @@ DBG_REMOVE = {'src/core/mem.c': ['memIsDisjoint', 'memIsSameOrDisjoint', 'memIsD
 def bundles():
     K = (16, 24, 32)
     L = []
-    def add(name, d, srcs, funcs, quick, more=(), stub=(UF,), unwind=40, defs=(), rules=(), fs=512, extra=(), libc=False):
-        L.append(dict(fs=fs, extra=list(extra), name=name, libc=libc, d=d, srcs=srcs, funcs=funcs, quick=list(quick), more=list(more), stub=list(stub) + ([LIBC] if libc else []), unwind=unwind, defs=list(defs), rules=list(rules) + ([(r'^mem(cpy|move|set)\.\d+$', 700)] if libc else [])))
+    def add(name, d, srcs, funcs, quick, more=(), stub=(UF,), unwind=40, defs=(), rules=(), fs=512, extra=(), libc=False, heavy=False):
+        L.append(dict(fs=fs, extra=list(extra), name=name, libc=libc, heavy=heavy, d=d, srcs=srcs, funcs=funcs, quick=list(quick), more=list(more), stub=list(stub) + ([LIBC] if libc else []), unwind=unwind, defs=list(defs), rules=list(rules) + ([(r'^mem(cpy|move|set)\.\d+$', 700)] if libc else [])))
     blk = [LCL, BLOCK]
     add('beltECB', 'B_ECB', blk + [B + 'belt_ecb.c'], ['beltECB_keep', 'beltECBStart', 'beltECBStepE', 'beltECBStepD'],
         [(16, 16, 17), (32, 32, 47)], [(24, 48, 31), (32, 16, 16)])
@@ -86,22 +89,26 @@ def bundles():
             [(256, 0, 1), (256, 64, 65)] if key != 32 else [(128, 1, 0), (256, 90, 96)],
             [(128, 96, 70), (192, 95, 1)] if key != 60 else [(256, 63, 64)], stub=(UFB,), unwind=200, defs=['PRG_D=%d' % d, 'PRG_ANN=%d' % ann, 'PRG_KEY=%d' % key])
     add('brngCTR', 'B_BRNGCTR', blk + ['src/crypto/brng.c'] + HASHS + [B + 'belt_hmac.c'], ['brngCTR_keep', 'brngCTRStart', 'brngCTRStepR', 'brngCTRStepG'],
-        [(1, 0, 1), (1, 33, 31), (0, 32, 5)], [(1, 5, 60), (1, 64, 0)], unwind=72, fs=1024, libc=True)
+        [(1, 0, 1), (0, 32, 5)], [(1, 33, 31), (1, 5, 60), (1, 64, 0)], unwind=72, fs=1024, libc=True)
     for ivl in (16, 65):
         add('brngHMAC_iv%d' % ivl, 'B_BRNGHMAC', blk + ['src/crypto/brng.c'] + HASHS + [B + 'belt_hmac.c'], ['brngHMAC_keep', 'brngHMACStart', 'brngHMACStepR'],
             [(32, 1, 32)] if ivl == 16 else [(16, 33, 0)], [(0, 31, 33), (40, 0, 64)], unwind=72, defs=['IV_LEN=%d' % ivl], fs=1024, libc=True)
     add('botpHOTP', 'B_HOTP', blk + BOTP + HMACS, ['botpHOTP_keep', 'botpHOTPStart', 'botpHOTPStepS', 'botpHOTPStepR', 'botpHOTPStepV', 'botpHOTPStepG', 'botpDT', 'botpCtrNext', 'decFromU32'],
-        [(32, 6, 0), (16, 8, 0)], [(33, 7, 0)], unwind=72, fs=1024, libc=True, defs=['VP_STATE_BYTES'])
+        [(32, 6, 0)], [(16, 8, 0), (33, 7, 0)], unwind=72, fs=1024, libc=True, defs=['VP_STATE_BYTES'], heavy=True)
     add('botpTOTP', 'B_TOTP', blk + BOTP + HMACS, ['botpTOTP_keep', 'botpTOTPStart', 'botpTOTPStepR', 'botpTOTPStepV'],
-        [(32, 6, 0), (16, 8, 0)], [(33, 7, 0)], unwind=72, fs=1024, libc=True, defs=['VP_STATE_BYTES'])
+        [(32, 6, 0)], [(16, 8, 0), (33, 7, 0)], unwind=72, fs=1024, libc=True, defs=['VP_STATE_BYTES'], heavy=True)
     OCRA = [('full', '"OCRA-1:HOTP-HBELT-6:C-QN08-PHBELT-S016-T1M"', 6, 32, 16, [(32, 4, 0), (32, 16, 0)]),
             ('min', '"OCRA-1:HOTP-HBELT-9:QA64"', 9, 0, 0, [(16, 128, 0)]),
+            ('adjacent', '"OCRA-1:HOTP-HBELT-6:C-QN08-PHBELT-S016-T1M"', 6, 32, 16, [(32, 8, 0)]),
             ('sha512', '"OCRA-1:HOTP-HBELT-4:QH10-PSHA512-S064"', 4, 64, 64, [(32, 20, 0)])]
     for (nm, suite, dg, p, s, inst) in OCRA:
         add('botpOCRA_' + nm, 'B_OCRA', blk + BOTP + HMACS, ['botpOCRA_keep', 'botpOCRAStart', 'botpOCRAStepS', 'botpOCRAStepR', 'botpOCRAStepV', 'botpOCRAStepG'],
-            inst if nm != 'sha512' else [], inst if nm == 'sha512' else [], unwind=140, fs=2048, libc=True,
-            defs=['OCRA_SUITE=' + suite, 'OCRA_DIGIT=%d' % dg, 'OCRA_P=%d' % p, 'OCRA_S=%d' % s])
+            [], inst, unwind=140, fs=2048, libc=True, heavy=True,
+            defs=['OCRA_SUITE=' + suite, 'OCRA_DIGIT=%d' % dg, 'OCRA_P=%d' % p, 'OCRA_S=%d' % s] + (['OCRA_ADJACENT'] if nm == 'adjacent' else []))
     return L
+
+Q32 = {'beltWBL', 'beltHash', 'beltHMAC', 'beltDWP', 'beltCHE', 'beltFMT', 'bashPrg_d1_a4_k32', 'brngCTR'}
+QDBG = {'beltECB', 'beltMAC', 'beltWBL', 'beltHash', 'beltHMAC', 'beltKRP', 'beltDWP', 'beltCHE', 'beltSDE', 'bashHash', 'bashPrg_d2_a60_k60', 'brngCTR', 'brngHMAC_iv65'}
 
 def keep_obs(tier):
     obs = []
@@ -110,12 +117,20 @@ def keep_obs(tier):
         if not inst: continue
         for word in (64, 32):
             for dbg in (False, True):
+                # quick tier (6-minute budget at --jobs 4): every bundle at W64 with NDEBUG on (two instances); W32 and the
+                # ASSERT-live profile repeat the first instance for the bundles in Q32 / QDBG; everything else
+                # (W32 x ASSERT-live, the heavy botp bundles, remaining bundles and instances) is in the thorough tier
+                if tier == 'quick':
+                    if word == 32 and dbg: continue
+                    if b['heavy'] and (word == 32 or dbg): continue
+                    if word == 32 and b['name'] not in Q32: continue
+                    if dbg and b['name'] not in QDBG: continue
                 srcs = []
                 for s in CORE + b['srcs']:
                     if dbg and isinstance(s, str) and s in DBG_REMOVE: s = (s, {'remove': DBG_REMOVE[s]})
                     srcs.append(s)
                 # the debug profile repeats the instances with the library's ASSERTs live
-                ii = inst if not dbg else inst[:2] if tier == 'quick' else inst
+                ii = inst if tier != 'quick' else inst[:2] if (word == 64 and not dbg) else inst[:1]
                 obs.append(Ob(
                     name='c07_keep%s_%s_w%d' % ('_dbg' if dbg else '', b['name'], word), harness='harness/C07/keep.c',
                     defs=[b['d']] + b['defs'] + (['VP_DBG'] if dbg else []), word=word, ndebug=not dbg,
@@ -131,7 +146,9 @@ def kernel_obs(tier):
     obs = []
     def k(name, entry, srcs, funcs, word, bound, unwind=40, timeout=240, checks=None):
         obs.append(Ob(name='c07_kernel_%s_w%d' % (name, word), harness='harness/C07/kernel.c', entry=entry, word=word, srcs=[f for f in CORE if not (word == 16 and f.endswith('u64.c'))] + srcs,
-                      unwind=unwind, timeout=timeout, mem_gb=6, cbmc_extra=FS + ['--slice-formula'], replay='asan', funcs=funcs, bound=bound, checks=checks))
+                      unwind=unwind, timeout=timeout, mem_gb=6, cbmc_extra=FS + ['--slice-formula'], replay='asan', funcs=funcs, bound=bound, checks=checks,
+                      tiers=('quick', 'thorough') if (name, word) in QUICK_K else ('thorough',)))
+    QUICK_K = {('beltBlock', 64), ('beltKeyExpand', 64), ('beltKeyExpand', 32), ('beltCompr', 64), ('bashF', 64)}
     blk = [LCL, B + 'belt_block.c']
     NOSO = ['--bounds-check', '--pointer-check', '--undefined-shift-check', '--div-by-zero-check']
     for w in (64, 32):
@@ -148,16 +165,20 @@ def kernel_obs(tier):
 def hl_obs(tier):
     obs = []
     blk = [LCL, BLOCK]
-    def h(name, d, srcs, funcs, quick, more=(), stub=(UF,), unwind=72, words=(64, 32)):
+    def h(name, d, srcs, funcs, quick, more=(), stub=(UF,), unwind=72, words=(64, 32), fs=512, libc=False, extra=(), disj=False):
         inst = list(quick) + (list(more) if tier != 'quick' else [])
+        if not inst: return
         for w in words:
+            if tier == 'quick' and (w == 32 or name in ('fmt', 'bash')): inst = inst[:1]
+            if tier == 'quick' and w == 32 and name not in ('auth', 'kwp'): continue
             ss = []
             for s in CORE + ['src/core/blob.c'] + srcs:
-                if s == 'src/core/mem.c': s = (s, {'remove': ['memAlloc']})
+                if s == 'src/core/mem.c': s = (s, {'remove': ['memAlloc'] + (DBG_REMOVE[s] if disj else [])})
+                if s == 'src/core/util.c' and disj: s = (s, {'remove': DBG_REMOVE[s]})
                 ss.append(s)
             obs.append(Ob(name='c07_blob_%s_w%d' % (name, w), harness='harness/C07/hl.c', defs=[d], word=w, blob_exact=True,
-                          instances=[('k_%d_%d_%d' % t, '%d, %d, %d' % t) for t in inst], srcs=ss, stub_files=list(stub) + ['harness/C07/alloc_typed.c'],
-                          unwind=unwind, timeout=240, mem_gb=6, cbmc_extra=FS, replay='asan', funcs=funcs,
+                          instances=[('k_%d_%d_%d' % t, '%d, %d, %d' % t) for t in inst], srcs=ss, stub_files=list(stub) + ['harness/C07/alloc_typed.c', LIBC] + ([DBG] if disj else []),
+                          unwind=unwind, unwind_rules=[(r'^mem(Wipe|chr)\.\d+$', 2200), (r'^mem(cpy|move|set)\.\d+$', 700)], timeout=240, mem_gb=6, cbmc_extra=['--max-field-sensitivity-array-size', str(fs)] + list(extra), replay='asan', funcs=funcs,
                           stubs=[s.split('/')[-1][:-2] for s in stub] + ['alloc_typed (memAlloc: same size, word-typed object)'],
                           bound='BEE2_VERIF_BLOB_EXACT: every blob is a heap object of exactly size + sizeof(size_t) octets; caller buffers exact; word=%d; concrete (klen, n, m) in %s; data symbolic' % (w, inst)))
     h('blockmodes', 'H_BLOCKMODES', blk + [B + f for f in ('belt_ecb.c', 'belt_cbc.c', 'belt_cfb.c', 'belt_ctr.c')],
@@ -165,12 +186,12 @@ def hl_obs(tier):
     h('disk', 'H_DISK', blk + [B + f for f in ('belt_bde.c', 'belt_sde.c', 'belt_wbl.c')], ['beltBDEEncr', 'beltBDEDecr', 'beltSDEEncr', 'beltSDEDecr'], [(32, 16, 32)], [(16, 48, 48)])
     h('auth', 'H_AUTH', blk + [B + f for f in ('belt_mac.c', 'belt_hash.c', 'belt_hmac.c', 'belt_krp.c', 'belt_compr.c', 'belt_pbkdf.c')],
       ['beltMAC', 'beltHash', 'beltHMAC', 'beltKRP', 'beltPBKDF2'], [(32, 17, 33)], [(16, 0, 0), (24, 32, 5)])
-    h('aead', 'H_AEAD', blk + [B + f for f in ('belt_dwp.c', 'belt_che.c', 'belt_ctr.c')] + PP, ['beltDWPWrap', 'beltDWPUnwrap', 'beltCHEWrap', 'beltCHEUnwrap'], [(32, 17, 5)], [(16, 0, 16), (24, 32, 0)])
-    h('kwp', 'H_KWP', blk + [B + 'belt_kwp.c', B + 'belt_wbl.c'], ['beltKWPWrap', 'beltKWPUnwrap'], [(32, 16, 1), (16, 17, 0)], [(24, 32, 1), (32, 48, 0)], unwind=48)
-    h('fmt', 'H_FMT', blk + [B + 'belt_fmt.c', B + 'belt_wbl.c'] + ZZ, ['beltFMTEncr', 'beltFMTDecr', 'beltFMT_keep'], [(32, 10, 9), (16, 65536, 24)], [(32, 256, 17), (24, 2, 40), (32, 65536, 9)], unwind=130)
+    h('aead', 'H_AEAD', blk + [B + f for f in ('belt_dwp.c', 'belt_che.c', 'belt_ctr.c')] + PP, ['beltDWPWrap', 'beltDWPUnwrap', 'beltCHEWrap', 'beltCHEUnwrap'], [], [(32, 17, 5), (16, 0, 16), (24, 32, 0)], extra=['--slice-formula'])
+    h('kwp', 'H_KWP', blk + [B + 'belt_kwp.c', B + 'belt_wbl.c'], ['beltKWPWrap', 'beltKWPUnwrap'], [(32, 16, 1), (16, 17, 0)], [(24, 32, 1), (32, 48, 0)], unwind=48, disj=True)
+    h('fmt', 'H_FMT', blk + [B + 'belt_fmt.c', B + 'belt_wbl.c'] + ZZ, ['beltFMTEncr', 'beltFMTDecr', 'beltFMT_keep'], [(32, 10, 9), (16, 65536, 24)], [(32, 256, 17), (24, 2, 40), (32, 65536, 9)], unwind=130, disj=True)
     h('bash', 'H_BASH', ['src/crypto/bash/bash_hash.c'], ['bashHash'], [(128, 1, 0), (256, 129, 0)], [(192, 96, 0), (16, 0, 0)], stub=(UFB,), unwind=200)
-    h('brng', 'H_BRNG', blk + ['src/crypto/brng.c'] + HASHS + [B + 'belt_hmac.c'], ['brngCTRRand', 'brngHMACRand'], [(32, 33, 16)], [(16, 1, 65), (0, 64, 0)])
-    h('botp', 'H_BOTP', blk + BOTP + HMACS, ['botpHOTPRand', 'botpHOTPVerify', 'botpTOTPRand', 'botpTOTPVerify', 'botpOCRARand'], [(32, 6, 0)], [(16, 8, 0)], unwind=140)
+    h('brng', 'H_BRNG', blk + ['src/crypto/brng.c'] + HASHS + [B + 'belt_hmac.c'], ['brngCTRRand', 'brngHMACRand'], [], [(32, 5, 16), (32, 33, 16), (16, 1, 65), (0, 64, 0)], fs=1024, libc=True)
+    h('botp', 'H_BOTP', blk + BOTP + HMACS, ['botpHOTPRand', 'botpHOTPVerify', 'botpTOTPRand', 'botpTOTPVerify', 'botpOCRARand'], [], [(32, 6, 0), (16, 8, 0)], unwind=140, fs=2048, libc=True)
     return obs
 
 def obligations(tier):
